@@ -21,8 +21,9 @@ McStrRank == Tab.rank
 
 \* (substitution by INSTANCE, not in the .cfg: TLC re-evaluates JSON-derived definitions on every
 \* use when they are substituted for constants in the configuration file)
-INSTANCE KEval WITH Num10 <- McNum10, Num16 <- McNum16, NumC <- McNumC,
-                    DecStr <- McDecStr, HexStr <- McHexStr, StrRank <- McStrRank
+INSTANCE KStore WITH Num10 <- McNum10, Num16 <- McNum16, NumC <- McNumC,
+                    DecStr <- McDecStr, HexStr <- McHexStr, StrRank <- McStrRank,
+                    NumF <- Tab.numf, NormF <- Tab.normf, FCanon <- Tab.fcanon
 
 Progs == Data.progs
 NT    == Len(Progs)
@@ -44,7 +45,11 @@ UOf(tt, idx) ==
   LET vs == Progs[tt].vars
       ns == x.syms IN
   [n \in {ns[k] : k \in 1..Len(ns)} |->
-     LET ks == VarIdx(vs, n, "sym") IN IF ks = {} THEN NoVal ELSE PickOf(vs, idx, CHOOSE k \in ks : TRUE)]
+     LET ks == VarIdx(vs, n, "sym")
+         raw == IF ks = {} THEN NoVal ELSE PickOf(vs, idx, CHOOSE k \in ks : TRUE)
+         ty == x.s[n].type
+     IN \* a value that is not of the option's type is refused by set_value / ignored by the loader
+        IF raw = NoVal THEN NoVal ELSE IF ValidFor(ty, raw) THEN Norm(ty, raw) ELSE NoVal]
 POf(tt, idx) ==
   LET vs == Progs[tt].vars
       cs == x.chs IN
@@ -116,12 +121,27 @@ WellTypedP(A) ==
         rs == X.s[n].ranges
         ri == FirstTrue(X, A, rs) IN
     /\ ty = "bool" => v \in {"y", "n"}
-    /\ ty \in {"int", "hex"} => (v = "" \/ IsNum(ty, v))
+    /\ ty \in {"int", "hex", "float"} => (v = "" \/ IsNum(ty, v))
     /\ ty = "hex" /\ v # "" => NumOf(ty, v) >= 0
-    /\ (ty \in {"int", "hex"} /\ ri # 0 /\ v # "") =>
+    /\ (ty \in {"int", "hex", "float"} /\ ri # 0 /\ v # "") =>
          LET lo == NumOr0(ty, AtomStr(X, A, rs[ri].lo))
              hi == NumOr0(ty, AtomStr(X, A, rs[ri].hi))
          IN lo <= hi => (lo <= NumOf(ty, v) /\ NumOf(ty, v) <= hi)
+
+(* C06: the generators render the option's value consistently.  Obs outs[k] =       *)
+(* <<header number, header has 0x, cmake number, cmake has 0x, json number>> as read *)
+(* by the harness's format readers (Absent / Unparsable codes); floats as ranks.    *)
+AbsentN == 0 - 999999999
+OutsP(A) ==
+  \/ ~Progs[t].has_outs
+  \/ \A k \in 1..Len(X.syms) :
+       LET n == X.syms[k]
+           ty == X.s[n].type
+           c == A.core[n]
+           o == Progs[t].outs[i][k] IN
+       (ty \in {"int", "hex", "float"} /\ c.written /\ c.val # "" /\ IsNum(ty, c.val)) =>
+          /\ o[1] = NumOf(ty, c.val) /\ o[3] = NumOf(ty, c.val) /\ o[5] = NumOf(ty, c.val)
+          /\ ty = "hex" => (o[2] = 1 /\ o[4] = 1)
 
 Cur == Eval(X, Ord, U, P)
 Report          == i = 0 \/ ReportP(Cur)
@@ -134,4 +154,5 @@ All == i = 0 \/ LET a == Cur IN
          /\ (HiddenUserInertP(a) \/ (PrintT(<<"F", "HiddenUserInert", t, i>>) /\ FALSE))
          /\ (ExactlyOneP(a) \/ (PrintT(<<"F", "ExactlyOne", t, i>>) /\ FALSE))
          /\ (WellTypedP(a) \/ (PrintT(<<"F", "WellTyped", t, i>>) /\ FALSE))
+         /\ (OutsP(a) \/ PrintT(<<"O", t, i, Progs[t].outs[i]>>))
 =============================================================================
